@@ -13,9 +13,9 @@ import (
 func init() { Registry["C13"] = C13 }
 
 type c13Variant struct {
-	name  string
-	prog  *gen.Program
-	equiv int // index of the variant whose results must be identical (-1: none)
+	name   string
+	prog   *gen.Program
+	equiv  int    // index of the variant whose results must be identical (-1: none)
 	src    string // rendering override (definitions interleaved with commands)
 	concat []int  // results must equal the concatenation of these variants' results
 }
